@@ -84,7 +84,7 @@ func c14RealTimeRun(c *core.Collector, x *Ctx, short bool) {
 			// every third scenario has a platform command outstanding while the re-request is produced (answered afterwards)
 			var cmdRes chan cmdResult
 			if i%3 == 0 {
-				time.Sleep(5000 * time.Millisecond)
+				time.Sleep(5700 * time.Millisecond)
 				cmdRes = make(chan cmdResult, 1)
 				go func() {
 					cmdRes <- sendCmd(srv.G, t.Phone, consts.P8104QueryTerminalParams, nil, 8*time.Second, 8*time.Second+slackFor(time.Second))
@@ -110,7 +110,7 @@ func c14RealTimeRun(c *core.Collector, x *Ctx, short bool) {
 				}(rx.F.Serial)
 				time.Sleep(300 * time.Millisecond)
 			} else {
-				time.Sleep(5300 * time.Millisecond)
+				time.Sleep(6000 * time.Millisecond) // the server's idle clock starts when IT has handled the last packet: margin for a loaded machine
 			}
 			t.Write(t.Frame(0x0002, 1, nil))
 			want := []byte{byte(first >> 8), byte(first), byte(len(missing))}
@@ -237,7 +237,7 @@ func c14RealTimeRun(c *core.Collector, x *Ctx, short bool) {
 				t.Write(t.SubFrame(id, first+2, 3, 3, bodies[2]))
 				want[first] = true
 			}
-			time.Sleep(5300 * time.Millisecond)
+			time.Sleep(6000 * time.Millisecond)
 			if m == 3 {
 				// a slow write callback holds the writer for 150 ms per frame: the reader has to WAIT for room in the 3-slot
 				// re-request channel, possibly for hundreds of milliseconds
@@ -282,6 +282,20 @@ func c14RealTimeRun(c *core.Collector, x *Ctx, short bool) {
 			if to || !ok || rx.F == nil || time.Since(t0) > 250*time.Millisecond {
 				c.Inconclusive()
 				return
+			}
+			// re-requests and replies travel through different channels to the writer: one that was already produced may still
+			// follow the sentinel's reply; collect until the connection has been quiet for a second
+			if rx.F.ID == 0x8003 && len(rx.F.Body) == 5 {
+				got[uint16(rx.F.Body[0])<<8|uint16(rx.F.Body[1])]++
+			}
+			for {
+				rx, ok, to := t.Next(1000 * time.Millisecond)
+				if to || !ok {
+					break
+				}
+				if rx.F != nil && rx.F.ID == 0x8003 && len(rx.F.Body) == 5 {
+					got[uint16(rx.F.Body[0])<<8|uint16(rx.F.Body[1])]++
+				}
 			}
 			for first := range want {
 				if got[first] != 1 {
